@@ -164,7 +164,7 @@ PROPS["C17"] = {
     "explanation": "the real counter/rate/mean/rateBucket code and the public wrappers are executed from SSA on 2-3 concurrent goroutines with SYMBOLIC step/sample values; "
                    "every interleaving of the atomic/mutex operations (sleep-set reduced) is explored and at quiescence the solver proves total == sum of the symbolic steps, mean == sum/count; "
                    "the status-code wildcard filter is compared with a reference matcher on symbolic strings.",
-    "bounds": "3 goroutines x <=3 operations; step/sample values < 2^40 (no overflow of the 64-bit sums); 2 status-code keys; patterns and codes up to 3 bytes; worker gauges: see C03 stage harnesses",
+    "bounds": "3 goroutines x <=3 operations; step/sample values < 2^40 (no overflow of the 64-bit sums); 2 status-code keys; patterns and codes up to 3 bytes; worker gauges of the preprocessor and postprocessor stages with 1-2 workers, stopped idle or paused",
     "outside": "reads taken during a burst (the statement speaks of totals after a burst); Prometheus mirrors (nil in the harness); per-second rate window",
     "assumptions": COMMON_ASSUME + ["sequential consistency at atomic/mutex operations"],
     "real_pkgs": [STATS],
@@ -174,6 +174,8 @@ PROPS["C17"] = {
         {"pkg": ST, "func": "VerifH_C17_mean_get", "covers": ["empty", "non-empty"]},
         {"pkg": ST, "func": "VerifH_C17_bucket", "replay_tries": 3, "replay_repeat": 300000, "covers": ["burst-done"]},
         {"pkg": ST, "func": "VerifH_C17_match", "covers": ["matched", "not-matched"]},
+        {"pkg": "internal/pkg/preprocessor", "func": "VerifH_C17_preprocessor_gauge", "replay_tries": 3, "covers": ["stopped", "stopped-while-paused"]},
+        {"pkg": "internal/pkg/postprocessor", "func": "VerifH_C17_postprocessor_gauge", "replay_tries": 3, "covers": ["stopped", "stopped-while-paused"]},
         {"pkg": ST, "func": "VerifH_C17_public", "replay_tries": 3, "replay_repeat": 300000, "covers": ["burst-done"]},
     ],
 }
